@@ -204,7 +204,8 @@ func (s sortableByProperty) Less(i, j int) bool {
 			// the key type may be a defined string type, to which a string is not assignable
 			elem := rt.MapIndex(reflect.ValueOf(s.key).Convert(rt.Type().Key()))
 			if elem.IsValid() {
-				return elem.Interface()
+				// an entry that is a drop is the value it yields: a drop that yields nil is nil
+				return ToLiquid(elem.Interface())
 			}
 		}
 		return nil
